@@ -18,7 +18,10 @@ RULE = ("sm units: one instance of each workflow state; for all 9 (state instanc
         "with 0/1/2 rows must raise ModelFitError.  grid units: fit_model over shuffled grids of "
         "innovation_filtering / max_dt_sec / common_subexpression_elimination values distinct from the defaults "
         "with a recording GridSearchCV subclass: every candidate and best_params_[k] is an element of grid[k] and "
-        "export_python().config.<k> == best_params_[k].  non-trivial = grid with >=2 hyper-parameters x >=2 values, "
+        "export_python().config.<k> == best_params_[k]; grids also with single-valued entries and over the whole "
+        "'config' object (one and two candidates); every scored estimator carries its candidate's values "
+        "(hook on NisScore.__call__); fields the grid does not mention equal the library defaults in the exported "
+        "filter, also for a second, smaller fit in the same process; source state's history untouched.  non-trivial = grid with >=2 hyper-parameters x >=2 values, "
         "or an executed (state, target) pair; distinct = sha256(kind, grid / pair, data)")
 ASSUMPTIONS = [
     "whether the *best* candidate is selected is not part of the property and is not checked",
